@@ -22,6 +22,14 @@ def _is_ptr_type(t):
     return t.endswith('*') or t.endswith('*const') or t.endswith('* const') or ('*' in t and not t.endswith(')'))
 
 
+def _pointee(t):
+    return (t or '').replace('const', '').replace('*', '').replace('gdstk::', '').strip()
+
+
+def _is_base_key(k):
+    return isinstance(k, str) and (k.endswith('.items') or k.endswith('->items') or k.endswith('->elements') or k.endswith('.elements'))
+
+
 def _inside(node, anc):
     x = node
     while x is not None:
@@ -196,6 +204,14 @@ class Loop:
     def lin(self, e, at=None, at_entry=False, depth=0):
         """linear form of an integer- or pointer-valued expression evaluated at node `at` (default: e itself) in
         iteration k, or at loop entry"""
+        if e is not None and e.k in ('CStyleCastExpr', 'CXXReinterpretCastExpr', 'CXXStaticCastExpr') and e.child('sub') is not None:
+            # a view of an array of points as an array of scalars (`(double*)vec2_ptr`): offsets double
+            tt, st = (e.t or ''), (_strip_casts(e.child('sub')).t or '') if _strip_casts(e.child('sub')) is not None else ''
+            if _is_ptr_type(tt) and _is_ptr_type(st) and _pointee(tt) in ('double', 'int32_t', 'int64_t') and 'Vec2' in _pointee(st):
+                v = self.lin(e.child('sub'), at or e, at_entry, depth + 1)
+                if v is None:
+                    return None
+                return {k_: (c if _is_base_key(k_) else 2 * c) for k_, c in v.items()}
         e = _strip_casts(e)
         if e is None or depth > 24:
             return None
